@@ -176,7 +176,7 @@ Proof.
   - inversion Hx; subst. exists (T i0 x0 l0 e0 ks). split; [apply in_preorder_self|].
     split; [reflexivity|]. split; [reflexivity|]. split; [assumption|]. split; [|intros C; congruence].
     intros Hne. cbn [t_kids]. intro; subst ks. simpl in H. destruct (oz_eqb x0 z); [|discriminate].
-    inversion H as [Hc]. rewrite Hc1 in Hc.
+    inversion H as [Hc].
     destruct c1; [congruence|]. destruct c1; discriminate.
   - destruct ks as [|k r].
     + simpl in H. destruct (oz_eqb x0 z); [|discriminate]. inversion H as [Hc]. rewrite Hc1 in Hc.
@@ -243,7 +243,7 @@ Lemma mrca_sep a b M :
 Proof.
   intros Hab H k Hk [Ha Hb]. apply first_some_none in H. rewrite Forall_forall in H. specialize (H k Hk).
   destruct (in_up_chain a k Ha) as [ca Hca]. destruct (in_up_chain b k Hb) as [cb Hcb].
-  eapply mrca_chains_some; eauto.
+  exact (mrca_chains_some a b k ca cb Hca Hcb Hab H).
 Qed.
 
 Lemma sep_sym z w ks : sep z w ks -> sep w z ks.
